@@ -551,7 +551,8 @@ Definition split_shape (nr dr : nat) (full : shape) : shape * shape * shape :=
 (* ---- observation and cases ---- *)
 Inductive obs :=
 | OOk (c : cls) (k : kind) (lead numer denom : shape) (vals : list (option val))
-| OErr (e : ek).
+| OErr (e : ek)
+| OSh (s : shape).
 
 Definition obs_of (o : outcome) : obs :=
   match o with
@@ -575,6 +576,7 @@ Fixpoint vals_agree (m i : list (option val)) : bool :=
 Definition obs_eqb (m i : obs) : bool :=
   match m, i with
   | OErr _, OErr _ => true
+  | OSh s, OSh s' => shape_eqb s s'
   | OOk c k l n d vm, OOk c' k' l' n' d' vi =>
       cls_eqb c c' && kind_eqb k k' && shape_eqb l l' && shape_eqb n n' && shape_eqb d d' &&
       match vm with [] => true | _ => vals_agree vm vi end
@@ -587,12 +589,14 @@ Definition mkopL (f : form) (c : cls) (k : kind) (lead numer denom : shape) (v :
 
 Inductive case04 :=
 | CBin (o : opn) (a b : operand) (t : ktab)
-| CUn (u : uop) (a : operand) (t : ktab).
+| CUn (u : uop) (a : operand) (t : ktab)
+| CBs (l : list shape).                 (* Qube.broadcasted_shape of a list of shapes *)
 
 Definition run04 (c : case04) : obs :=
   match c with
   | CBin o a b t => obs_of (binop t o a b)
   | CUn u a t => obs_of (unop t u a)
+  | CBs l => match broadcasted_shape l with Some s => OSh s | None => OErr ValueErr end
   end.
 
 Fixpoint mism_from (k : nat) (l : list (case04 * obs)) : list nat :=
